@@ -89,6 +89,7 @@ typedef struct {
   size_t n;          // user bytes (exact documented size)
   size_t guard;      // guard bytes on each side (>= 4096)
   uint64_t cseed;    // canary seed
+  int arena;         // carved from the per-process placement arena (not freed individually)
 } gbuf_t;
 // allocates `n` user bytes at alignment `align` (power of two >= 8) plus `mis` bytes of
 // misalignment (multiple of 4), with guard bands of at least `guard` bytes on both sides.
@@ -135,6 +136,8 @@ uint64_t hash_bytes(const void* p, size_t n, uint64_t h);
 void set_dispatch(int native);
 enum { DISP_GENERIC = 0, DISP_NATIVE = 1, DISP_AVX2_ONLY = 2, DISP_FMA_ONLY = 3, N_DISP = 4 };
 extern const char* const disp_name[N_DISP];
+extern int g_case_place;    // set by case_begin: 0 separate allocations (default), 1 / 2: every guarded buffer of the case is carved from one
+                            // arena at ascending / descending addresses in allocation order, 256 guard bytes apart (relative position of buffers)
 extern int g_case_aligned;  // set by case_begin for a quarter of the cases: all guarded buffers 64-byte aligned
 extern int g_dispatch_native;
 static inline const char* dispatch_name(void) { return disp_name[g_dispatch_native & 3]; }
